@@ -91,12 +91,11 @@ def table_case(ctx, rng, pending, numkeys):
                                                                     'mag': str(bits & (2 ** 63 - 1))}, kc({'x': r['x']})))
 
 
-def big_case(ctx, rng):
+def big_case(ctx, rng, reverse):
     """above the 10240-entry cache of the key/value file"""
     rep = ctx.report
     n = 10240 + rng.choice([1, 500])
     rows = [{'x': (i * 7919) % 1000 - 500, 'id': i} for i in range(n)]
-    reverse = rng.random() < 0.5
     with quiet():
         out = Flow(rows, DF.sort_rows('{x}', reverse=reverse, batch_size=rng.choice([100, 1000]))).results(on_error=None)[0][0]
     got = [r['id'] for r in out]
@@ -129,7 +128,8 @@ def run(ctx):
     for _ in range(ctx.n(300, 5000)):
         table_case(ctx, rng, pending, numkeys)
     for _ in range(ctx.n(1, 6)):
-        big_case(ctx, rng)
+        for reverse in (False, True):      # both directions on every run, above the cache
+            big_case(ctx, rng, reverse)
     if ctx.model.available():
         outs = ctx.model.run([op for _, op, _ in pending])
         for (case, op, got), mo in zip(pending, outs):
